@@ -270,6 +270,11 @@ class Interp:
             return [v.get(i) for i in range(n)]
         if isinstance(v, MList):
             return self.concrete_items(v.seq)
+        if type(v).__name__ in ('dict_keyiterator', 'dict_valueiterator',
+                                'dict_itemiterator', 'tuple_iterator',
+                                'list_iterator', 'dict_keys', 'dict_values',
+                                'dict_items'):
+            return list(v)
         raise Unsupported('need a sequence of concrete length, got %r' % (v,))
 
     def e_UnaryOp(self, node, fr):
@@ -791,13 +796,23 @@ class Interp:
         args = []
         for a in node.args:
             if isinstance(a, ast.Starred):
-                args.extend(self.concrete_items(self.eval(a.value, fr)))
+                sv = self.eval(a.value, fr)
+                if isinstance(sv, SVal) and isinstance(fn, SVal):
+                    # f(*opaque) on an opaque callable: the argument pack is
+                    # passed on as one uninterpreted `star` value
+                    from . import models
+                    args.append(models.apply_uf('py.star', (sv,), 'Val'))
+                else:
+                    args.extend(self.concrete_items(sv))
             else:
                 args.append(self.eval(a, fr))
         kwargs = {}
         for k in node.keywords:
             if k.arg is None:
                 d = self.eval(k.value, fr)
+                if isinstance(d, SVal) and isinstance(fn, SVal):
+                    kwargs['**'] = d
+                    continue
                 if not isinstance(d, dict):
                     raise Unsupported('** of non-concrete dict')
                 kwargs.update(d)
